@@ -42,6 +42,7 @@ type funk struct {
 	tempR             uint32
 	usesEmptyIOBuffer bool
 	usesScratch       bool
+	usesCoroResumed   bool
 	hasGotoOK         bool
 }
 
